@@ -252,6 +252,15 @@ func (p *AddressPool) Release(duid string) {
 	}
 }
 
+// Decline drops a client's address without returning it to the free list
+// (the client found it in use by someone else on the link).
+func (p *AddressPool) Decline(duid string) {
+	p.mu.Lock()
+	defer p.mu.Unlock()
+
+	delete(p.allocated, duid)
+}
+
 // NewPrefixPool creates a new prefix delegation pool
 func NewPrefixPool(cidr string, delegationLen uint8, preferred, valid uint32) (*PrefixPool, error) {
 	_, ipnet, err := net.ParseCIDR(cidr)
@@ -725,7 +734,13 @@ func (s *Server) handleDecline(msg *Message, addr *net.UDPAddr) {
 		zap.String("from", addr.String()),
 	)
 
-	// For now, just release and let client try again
+	// Take the declined address out of circulation before the binding is
+	// released, so it is not handed to the next client
+	if clientIDOpt := msg.GetOption(OptClientID); clientIDOpt != nil && s.addressPool != nil {
+		s.addressPool.Decline(string(clientIDOpt.Data))
+	}
+
+	// Release the rest of the binding and let the client try again
 	s.handleRelease(msg, addr)
 }
 
